@@ -211,3 +211,5 @@ func runOne(path string, harnesses map[string]func()) {
 
 func TraceShared(x any, name string) {}
 func TraceTake() []string          { return nil }
+func TraceSharedDeep(x any, name string) {}
+func TraceMark(s string)                 {}
